@@ -736,13 +736,13 @@ theorem qsame_clientMultiGet {s s' : State} {ks : List Nat} {o o' : Oracle} {out
     · cases h
 
 theorem qsame_sweepEvict (s : State) (id : Nat) : QSame s (sweepEvict s id).1 := by
-  unfold sweepEvict
-  simp only []
-  split
-  · rename_i e _
-    exact QSame.trans (QSame.of_eq (s' := { s with adm := (s.adm.delete id).1 }) rfl rfl rfl rfl rfl rfl rfl)
-      (qsame_applyEvictId _ e)
-  · exact QSame.refl s
+  rcases sweepEvict_cases s id with h0 | ⟨wk, _, _, h1⟩
+  · rw [h0]; exact QSame.refl s
+  · rw [h1]
+    exact QSame.trans
+      (QSame.of_eq (s' := { s with adm := { s.adm with kw := s.adm.kw.del id, used := s.adm.used - wk.weight } })
+        rfl rfl rfl rfl rfl rfl rfl)
+      (qsame_applyEvictId _ (id, wk.key, wk.weight))
 
 theorem qsame_sweepEntries (l : List ((Nat × Nat) × Nat)) :
     ∀ (s : State) (acc : List Evicted), QSame s (sweepEntries s l acc).1 := by
